@@ -6,4 +6,5 @@ INVARIANT TypeOK
 INVARIANT Progress
 INVARIANT M_NoPanic
 INVARIANT M_Returns
+INVARIANT M_NoStall
 CHECK_DEADLOCK FALSE
